@@ -246,6 +246,7 @@ class FunctionVerifier:
         self.call_sites = {}
         self.real_assigned = set()
         self.stmt_keys = {}
+        self.missing_anchors = []
         self.view_copies = set()  # locations that model a NumPy slice view as a copy: must never be written
         self.view_src = {}  # ... and must not be read after their base array has been written
         self.used_anchors = set()
@@ -1096,9 +1097,26 @@ class FunctionVerifier:
                         visit([x for x in sub if isinstance(x, ast.stmt)])
 
         visit(body)
+        present = set(self.stmt_keys.values())
         for key in self.cd.stmt_anchors:
-            if (key[0], key[1]) not in set(self.stmt_keys.values()):
-                raise VerifError("contract of %s anchors ghost code at statement %r #%d which does not exist in the source" % (self.cd.qualname, key[0], key[1]))
+            if (key[0], key[1]) not in present:
+                msg = "contract of %s anchors ghost code at statement %r #%d which does not exist in the source" % (self.cd.qualname, key[0], key[1])
+                if not self.source_changed():
+                    raise VerifError(msg)  # the contract is stale on the very source it was written for: tool failure
+                # changed source: the hint block is dropped, the function is still verified (its obligations will
+                # say what no longer holds) and the dropped anchor is reported as an undischarged obligation
+                self.missing_anchors.append(msg)
+
+    def source_changed(self):
+        """True iff a baseline record exists for this unit and the function's source hash differs from it"""
+        import json as _json
+
+        try:
+            p_ = os.path.join(os.path.dirname(os.path.dirname(os.path.abspath(__file__))), "baseline", "obligations.json")
+            b = _json.load(open(p_)).get("%s|%s" % (self.cd.qualname, _json.dumps(self.variant, sort_keys=True)))
+        except Exception:
+            return False
+        return bool(b) and bool(self.sha) and b.get("sha256") != self.sha
 
     def st_Pass(self, node, st):
         return [(st, FALL)]
@@ -1853,6 +1871,10 @@ class FunctionVerifier:
             nloops = self.number_loops(body)
             self.number_call_sites(body)
             self.number_stmts(body)
+            for k_m, msg_ in enumerate(self.missing_anchors):
+                o_ = Obligation("%s/stale-anchor/%d%s" % (cd.qualname, k_m, self.vname()), "stale-anchor", [], z3.BoolVal(False), cd.qualname, 0, msg_[:200], self.vname())
+                o_.extra["forced"] = "unknown"
+                self.obls.append(o_)
             ifs = [n for stn in body for n in ast.walk(stn) if isinstance(n, ast.If)]
             ifs.sort(key=lambda n: (n.lineno, n.col_offset))
             for k_, n_ in enumerate(ifs):
